@@ -360,6 +360,12 @@ def c18():
             exres = (not c["nex"]) and c["ex"] != "false"
             return c["nargs"] == 1 and not tcres and exres
         conf = [o for o in judged if not (o["cfg"]["class"] == "illtyped_any" and reaches_exec(o["cfg"]))]
+        # an ill-typed program that is run without typechecking errs at run time - unless the interpreter declares quiescence first (its 50 ms heartbeat
+        # on a loaded machine): an execution of that class that ended without the error is not an observation of the class, and is not judged
+        not_judged = [o for o in conf if o["cfg"]["class"] == "illtyped_panics" and reaches_exec(o["cfg"]) and not o["panic"]]
+        conf = [o for o in conf if o not in not_judged]
+        if not_judged:
+            v.notes.append("%d executions of an erring program without typechecking ended before the error showed (not judged)" % len(not_judged))
         for o in conf:
             if o["cfg"]["class"] == "illtyped_any":
                 o["cfg"] = dict(o["cfg"], **{"class": "illtyped_stuck"})
@@ -611,6 +617,17 @@ CHECKS["C19"] = c19
 
 
 # ----------------------------------------------------------------------------- C13
+UNTYPED_ERRING = [
+    # several forwards without polarity information (no types, no marks): each of them is a run-time error of its own process
+    "prc[a] = fwd self b\nprc[b] = fwd self c\nprc[c] = fwd self d\nprc[d] = close self\n",
+    "prc[m] = x <- new (fwd self a); y <- new (fwd self b); z <- new (fwd self c); wait x; wait y; wait z; close self\nprc[a] = close self\nprc[b] = close self\nprc[c] = close self\n",
+    # several clients that receive a message of the wrong kind
+    "prc[a] = wait b; close self\nprc[c] = wait d; close self\nprc[e] = wait f; close self\n"
+    "prc[b] = u <- new close self; v <- new close self; send self<u, v>\nprc[d] = u <- new close self; v <- new close self; send self<u, v>\n"
+    "prc[f] = u <- new close self; v <- new close self; send self<u, v>\n",
+]
+
+
 def c13():
     """data races.  Decided in three layers:
     (1) GritsRT.tla: invariant NoSharedTree on every interleaving of the small programs (the design: CALL / DUP copy, CUT moves a sub-tree);
@@ -661,6 +678,13 @@ def c13():
                 if tier == "thorough" or mode == "async":
                     cfgs.append((mode, 4, mon, 0.3, seed + 1))
         jobs = []
+        # programs run WITHOUT typechecking that reach run-time errors in several processes at once (the property speaks of any program)
+        for k, text in enumerate(UNTYPED_ERRING):
+            for mode in ("async", "sync", "np"):
+                for rep_ in range(3):
+                    jobs.append({"id": "untyped%d|%s|16|0|%d" % (k, mode, rep_), "text": text, "mode": mode, "typecheck": False, "execute": True, "monitor": False,
+                                 "subscriber": False, "gomaxprocs": 16, "seed": seed + rep_, "yield": 0.0, "trace": False, "dump": False, "max_ms": 6000, "max_events": 1000,
+                                 "post_calls": True})
         for p in run:
             for (mode, gmp, mon, yld, rs) in cfgs:
                 jobs.append({"id": "%s|%s|%d|%d|%.1f" % (p["name"], mode, gmp, int(mon), yld), "text": p["text"], "mode": mode, "typecheck": True, "execute": True,
